@@ -691,6 +691,11 @@ func RunTransfer(env *Env, plan *TransferPlan) {
 	for _, ws := range plan.Webseeds {
 		hasSource = hasSource || ws.Honest
 	}
+	if sut.Cfg.WriteCacheSize < int64(T.PieceLen) {
+		// the configured memory for pieces in flight cannot hold one piece: nothing can ever be
+		// downloaded with this configuration (rain waits; no property says otherwise)
+		hasSource = false
+	}
 	if plan.Liveness && !complete && !hasSource {
 		simrt.Count("probe.transfer.liveness_skipped_no_source", 1)
 	}
